@@ -59,7 +59,7 @@ def _engine_tasks(what, args):
         return eng, tasks
     if what in ("C11", "C20"):
         from . import histsim as eng
-        n = args.runs or ({"C11": 4000, "C20": 5000}[what] if args.tier == "quick" else {"C11": 150000, "C20": 200000}[what])
+        n = args.runs or ({"C11": 4000, "C20": 8000}[what] if args.tier == "quick" else {"C11": 150000, "C20": 200000}[what])
         tasks = [{**t, "cfg": {"profile": what.lower()}} for t in driver.seeds_for(args.seed, what, n)]
         if what == "C11" and not getattr(args, "no_sweep", False) and args.what != "digests":
             tasks += crashpoint_sweep_tasks(eng, args)
